@@ -173,6 +173,19 @@ func enumScalarTD(tier string, s *tbin.Shape, typedef bool, yield func(*scen) bo
 					if !yield(sc) {
 						return
 					}
+					if pos.name == "top" && s.T == tbin.STRING && !(s.Binary && sp.Esc != 0) {
+						// (escaped spellings of base64 text are a listed finding at every position: not multiplied here)
+						// blanks BEHIND a top-level string literal (in front of it they would make it unquoted text)
+						for _, tail := range []string{" ", "\n", "\r\n\t "} {
+							tc := *sc
+							tc.trigger += "/trailing-blanks"
+							tc.note = sp.String() + fmt.Sprintf(" + trailing %q", tail)
+							tc.doc = append(append([]byte{}, sc.doc...), tail...)
+							if !yield(&tc) {
+								return
+							}
+						}
+					}
 				}
 			}
 		}
